@@ -39,6 +39,7 @@ def inner_spec(kind, ts=1):
           'inert' - one probe process that returns empty updates
           'proc'  - one probe process (accumulates v, collects tokens)
           'full'  - process + flow steps s1 <- s2 + legacy deriver d0
+          'nested' - the same with the flow steps in a sub-compartment
     """
     if kind == 'vars':
         return {}, {}, {}, {}
@@ -50,20 +51,32 @@ def inner_spec(kind, ts=1):
     processes = {'proc': proc}
     topology = {'proc': {'in': ()}}
     steps, flow = {}, {}
-    if kind == 'full':
-        for sid in ('s1', 's2'):
-            steps[sid] = {
+    if kind in ('full', 'nested'):
+        # s2 depends on s1 but is LISTED FIRST (dict order differs from the
+        # dependency order) and reads what s1 wrote in this phase
+        defs = {}
+        for sid in ('s2', 's1'):
+            src = ('in', 'v') if sid == 's1' else ('in', 'o_s1')
+            defs[sid] = {
                 'cls': 'S', 'pid': sid,
                 'schema': {'in': {'v': dict(VAR),
-                                  f'o_{sid}': {'_default': -1,
-                                               '_updater': 'set',
-                                               '_emit': True},
+                                  'o_s2': {'_default': -1,
+                                           '_updater': 'set',
+                                           '_emit': True},
                                   'o_s1': {'_default': -1,
                                            '_updater': 'set',
                                            '_emit': True}}},
-                'update': {'in': {f'o_{sid}': {'$state': ('in', 'v')}}}}
-            topology[sid] = {'in': ()}
-        flow = {'s1': [], 's2': [('s1',)]}
+                'update': {'in': {f'o_{sid}': {'$state': src}}}}
+        if kind == 'full':
+            steps.update(defs)
+            for sid in defs:
+                topology[sid] = {'in': ()}
+            flow = {'s1': [], 's2': [('s1',)]}
+        else:
+            # the flow steps live in a sub-compartment (nested flow)
+            steps['sub'] = defs
+            topology['sub'] = {sid: {'in': ('..',)} for sid in defs}
+            flow = {'sub': {'s1': [], 's2': [('s1',)]}}
         steps['d0'] = {
             'cls': 'S', 'pid': 'd0',
             'schema': {'in': {'v': dict(VAR),
@@ -74,7 +87,8 @@ def inner_spec(kind, ts=1):
     return processes, steps, flow, topology
 
 
-def initial_world(kind, ts_of, issuer, op_script, init=None, extra=None):
+def initial_world(kind, ts_of, issuer, op_script, init=None, extra=None,
+                  op2_script=None):
     """kind: inner kind of the initial compartments; ts_of: {key: ts};
     issuer: 'process' | 'step'; op_script: {n: update template}."""
     init = init if init is not None else {'X': ['a', 'b'], 'Y': []}
@@ -104,6 +118,18 @@ def initial_world(kind, ts_of, issuer, op_script, init=None, extra=None):
         steps['op'] = op
         flow['op'] = []
     topology['op'] = {c: (c,) for c in CONTAINERS + (LEAF_CONTAINER,)}
+    if op2_script is not None:
+        # a second operator, listed after the first: its updates of one
+        # tick are applied after the first operator's
+        op2 = copy.deepcopy(op)
+        op2['pid'] = 'op2'
+        op2['update'] = {'$n': op2_script, '$else': {}}
+        if issuer == 'process':
+            processes['op2'] = op2
+        else:
+            steps['op2'] = op2
+            flow['op2'] = []
+        topology['op2'] = dict(topology['op'])
     spec = {'processes': processes, 'steps': steps, 'flow': flow,
             'topology': topology, 'state': state}
     if extra:
@@ -126,6 +152,11 @@ def op_update(op, kind='vars', ts=1):
     if name == 'clr':
         _, c, k = op
         return {c: {k: {'n': None}}}
+    if name == 'regen':
+        # first half (first operator): delete; the second operator
+        # generates the same key in the same tick (op2_update)
+        _, c, k = op
+        return {c: {'_delete': [k]}}
     if name == 'addleaf':
         _, k, i = op
         return {LEAF_CONTAINER: {'_add': [{'key': k,
@@ -170,6 +201,18 @@ def op_update(op, kind='vars', ts=1):
     raise ValueError(op)
 
 
+def op2_update(op, kind='vars', ts=1):
+    """What the SECOND operator returns in the tick of ``op`` (or None)."""
+    if op[0] == 'regen':
+        return op_update(('gen', op[1], op[2]), kind, ts)
+    if op[0] == 'pair':
+        for sub in op[1:]:
+            u = op2_update(sub, kind, ts)
+            if u is not None:
+                return u
+    return None
+
+
 class Model:
     """Reference hierarchy: {container: {key: compartment dict}}."""
 
@@ -210,6 +253,8 @@ class Model:
         if name == 'clr':
             return op[2] in self.t[op[1]] and \
                 self.t[op[1]][op[2]]['n'] is not None
+        if name == 'regen':
+            return op[2] in self.t[op[1]] and len(op[2]) == 1
         if name == 'addleaf':
             return op[1] not in self.leaves
         if name == 'div':
@@ -229,7 +274,8 @@ class Model:
             a, b = op[1], op[2]
             if not (self.enabled(a) and self.enabled(b)):
                 return False
-            if a[0] in ('clr', 'addleaf') or b[0] in ('clr', 'addleaf'):
+            if a[0] in ('clr', 'addleaf', 'regen') or b[0] in (
+                    'clr', 'addleaf', 'regen'):
                 return False
             ka, kb = a[2], b[2]
             if ka[0] == kb[0]:
@@ -259,6 +305,12 @@ class Model:
                                     'born': self.now, 'n': 'home', 'g': 0}
         elif name == 'clr':
             self.t[op[1]][op[2]]['n'] = None
+        elif name == 'regen':
+            self.t[op[1]][op[2]] = {
+                'v': 7, 'w': 1, 'cell': object(), 'ts': 1,
+                'born': self.now, 'n': 'home', 'g': 4,
+                'inner': gen_kind or self.gen_kind or (
+                    'proc' if self.kind == 'vars' else self.kind)}
         elif name == 'addleaf':
             self.leaves[op[1]] = LEAF_VALUES[op[2]]
         elif name in ('del', 'delpath'):
@@ -305,8 +357,12 @@ class Model:
 
 
 def menu(model, with_pairs=True, with_delpath=False, keys=KEYS,
-         with_extras=False):
+         with_extras=False, with_regen=False):
     ops = []
+    if with_regen:
+        for c in CONTAINERS:
+            for k in sorted(model.t[c]):
+                ops.append(('regen', c, k))
     if with_extras:
         for k in ('p',):
             for i in range(len(LEAF_VALUES)):
@@ -373,7 +429,7 @@ def bfs(init, kind, depth, step, with_pairs=True, with_delpath=False,
 def enumerate_histories(init, kind, depth, with_pairs=True,
                         with_delpath=False, dedup=True, proc_issuer=False,
                         gen_kind=None, with_extras=False,
-                        pair_levels=None):
+                        pair_levels=None, with_regen=False):
     """All (history, model trace) pairs explorer B visits, as plain data so
     that they can be distributed over worker processes."""
     root = Model(init, kind, proc_issuer, gen_kind)
@@ -387,7 +443,7 @@ def enumerate_histories(init, kind, depth, with_pairs=True,
             pairs_here = with_pairs and (pair_levels is None
                                          or level < pair_levels)
             for op in menu(model, pairs_here, with_delpath,
-                           with_extras=with_extras):
+                           with_extras=with_extras, with_regen=with_regen):
                 after = model.copy()
                 after.apply(op)
                 h2 = hist + (op,)
